@@ -1093,8 +1093,10 @@ where
             _ => return Err(Error::InvalidFormatCode),
         };
 
-        // // AMQP map count includes both key and value, should be halfed
-        // let count = count / 2;
+        // AMQP map count includes both key and value; an odd count is malformed
+        if count % 2 != 0 {
+            return Err(Error::InvalidLength);
+        }
         visitor.visit_map(MapAccess::new(self, size, count))
     }
 
@@ -1558,7 +1560,7 @@ impl<'de, R: Read<'de>> de::MapAccess<'de> for MapAccess<'_, R> {
     where
         V: de::DeserializeSeed<'de>,
     {
-        self.count -= 1;
+        self.count = self.count.checked_sub(1).ok_or(Error::InvalidLength)?;
         seed.deserialize(self.as_mut())
     }
 
@@ -1575,7 +1577,7 @@ impl<'de, R: Read<'de>> de::MapAccess<'de> for MapAccess<'_, R> {
             0 => Ok(None),
             _ => {
                 // AMQP map count includes both key and value
-                self.count -= 2;
+                self.count = self.count.checked_sub(2).ok_or(Error::InvalidLength)?;
                 let key = kseed.deserialize(self.as_mut())?;
                 let val = vseed.deserialize(self.as_mut())?;
                 Ok(Some((key, val)))
